@@ -193,9 +193,18 @@ func main() {
 	sortCombos(combos)
 
 	all := buildRuns(cases, combos)
+	// sampling is stratified by (routine, objective family): every family gets the same share of a routine's runs
 	perRoutine := map[string]int{}
+	perStratum := map[string]int{}
+	families := map[string]map[string]bool{}
 	for i := range all {
-		perRoutine[all[i].routineName()]++
+		rn, fam := all[i].routineName(), cases[all[i].ci].Kind
+		perRoutine[rn]++
+		perStratum[rn+"/"+fam]++
+		if families[rn] == nil {
+			families[rn] = map[string]bool{}
+		}
+		families[rn][fam] = true
 	}
 	selected := []runSpec{}
 	for i := range all {
@@ -206,8 +215,12 @@ func main() {
 			}
 			continue
 		}
-		tot := perRoutine[rs.routineName()]
-		if tot <= target || hash64(fmt.Sprintf("%d/%s", seed, rs.key))%uint64(tot) < uint64(target) {
+		if f := os.Getenv("OPTIM_ROUTINE"); f != "" && !strings.Contains(","+f+",", ","+rs.routineName()+",") {
+			continue // debugging aid: restrict to some routines
+		}
+		tot := perStratum[rs.routineName()+"/"+cases[rs.ci].Kind]
+		share := (target + len(families[rs.routineName()]) - 1) / len(families[rs.routineName()])
+		if tot <= share || hash64(fmt.Sprintf("%d/%s", seed, rs.key))%uint64(tot) < uint64(share) {
 			selected = append(selected, rs)
 		}
 	}
@@ -296,6 +309,13 @@ func main() {
 			pr.cons = st.constraint(rs.o.Cons)
 			pr.eps = math.Pow(10, -float64(rs.o.EpsExp)/float64(rt.epsDiv))
 			maxit := rt.bigCap
+			// larger caps where the run stays short anyway (the caps only bound the trace volume)
+			if strings.HasPrefix(rt.name, "newton") && rs.o.Cons != "half" {
+				maxit = 100
+			}
+			if rt.name == "bfgs" && c.Kind != "rosen" {
+				maxit = 150
+			}
 			if rs.o.Maxit >= 0 {
 				maxit = rt.smallCap
 			} else if maxit == 0 {
@@ -333,7 +353,7 @@ func main() {
 			if rs.rt.name == "lineSearch" {
 				// the constraint of the restriction: the point x0 + alpha d (re-computed by the runner's closure is not
 				// available here): evaluate through the last recorded answer instead
-				ret.ConsOK = lineConsOK(cases[rs.ci], st, cons, res.pt[0])
+				ret.ConsOK = lineConsOK(cases[rs.ci], st, cons, res.pt[0], rs.variant)
 			} else {
 				ret.ConsOK = cons(res.pt)
 			}
@@ -376,11 +396,12 @@ func main() {
 }
 
 // lineConsOK evaluates the user constraint at the point of the 1-d restriction.
-func lineConsOK(c *caseT, st *startRec, cons func([]float64) bool, alpha float64) bool {
+func lineConsOK(c *caseT, st *startRec, cons func([]float64) bool, alpha float64, variant string) bool {
 	_, g0 := valGrad(c.objective(), st.X)
+	_, scale := lineVariant(variant)
 	p := make([]float64, len(g0))
 	for i := range g0 {
-		p[i] = st.X[i] + alpha*(-g0[i])
+		p[i] = st.X[i] + alpha*(-g0[i]*scale)
 	}
 	return cons(p)
 }
